@@ -54,6 +54,8 @@ SYNC_RENAMES = [
     ("rwmutex.go", "func (rw *RWMutex) Unlock() {", "func (rw *RWMutex) verifOrigUnlock() {"),
     ("rwmutex.go", "func (rw *RWMutex) RLock() {", "func (rw *RWMutex) verifOrigRLock() {"),
     ("rwmutex.go", "func (rw *RWMutex) RUnlock() {", "func (rw *RWMutex) verifOrigRUnlock() {"),
+    ("pool.go", "func (p *Pool) Put(x any) {", "func (p *Pool) verifOrigPut(x any) {"),
+    ("pool.go", "func (p *Pool) Get() any {", "func (p *Pool) verifOrigGet() any {"),
 ]
 
 # package runtime: the source of map seeds / iteration offsets and the process-wide hash key become
